@@ -684,6 +684,28 @@ def gen_resp(rng: random.Random, sid: str, focus: str, thorough: bool = False) -
             live[i] = sp
             steps.append({'op': 'upd', 'svc': sp, 'same_object': rng.random() < 0.5})
             continue
+        if rng.random() < {'c03': 0.06, 'c09': 0.1}.get(focus, 0.02) and [x for x in live if busy[x['sid']] <= t]:
+            # a registration that is refused: another ServiceInfo under an instance name this instance already holds (another
+            # sub/type, host or port), cooperating_responders so that it reaches the registry at once.  Nothing of it may be
+            # announced, enumerated or answered afterwards.
+            sp = rng.choice([x for x in live if busy[x['sid']] <= t])
+            sp2 = dict(sp, sid=6)
+            how = rng.choice(['type', 'host', 'port', 'all'])
+            if how in ('type', 'all') and sp['type'] == TYPES[0]:
+                sp2['type'] = TYPES[2]
+            if how in ('host', 'all'):
+                sp2['host'] = 'elm.local.'
+                sp2['addrs'] = 'other4'
+            if how in ('port', 'all') or sp2 == dict(sp, sid=6):
+                sp2['port'] = 8081
+            steps.append({'op': 'reg', 'svc': sp2, 'coop': True, 'refused': True})
+            t += rng.choice([0, 1, 600, 1500])
+            steps.append({'op': 'at', 't': t})
+            for qn, qt in [(ENUM, wire.T_PTR), (sp2['host'], wire.T_A), (sp2['type'], wire.T_PTR), (sp2['name'], wire.T_SRV)]:
+                if rng.random() < 0.8:
+                    steps.append({'op': 'query', 'qs': [{'name': qn, 'type': qt, 'sp': rng.randint(0, 2), 'qu': False}], 'qid': rng.randint(1, 65535),
+                                  'src': '10.0.0.9', 'port': rng.choice([40000, 40000, 5353])})
+            continue
         r = rng.random()
         p_unreg = {'c08': 0.25, 'c03': 0.15}.get(focus, 0.06)
         # API calls on a service only once its previous announcement / goodbye sequence is over (property domain:
@@ -713,8 +735,16 @@ def gen_resp(rng: random.Random, sid: str, focus: str, thorough: bool = False) -
                     t += dt
                     steps += [{'op': 'at', 't': t}, {'op': 'query', 'qs': [{'name': qname, 'type': qtype, 'sp': 0, 'qu': False}],
                                                     'qid': rng.randint(1, 65535), 'src': '10.0.0.23'}]
-                t += rng.choice([50, 200, 500])
-                steps.append({'op': 'at', 't': t})
+                dt = rng.choice([0, 50, 200, 500])
+                if dt:
+                    # (dt = 0: the application unregisters in the very loop iteration in which the query was read -- no 'at' step,
+                    # which would yield to the loop once)
+                    t += dt
+                    steps.append({'op': 'at', 't': t})
+            elif rng.random() < 0.3:
+                # a query for the service in the same loop iteration, then the unregistration with nothing in between
+                qname, qtype = rng.choice([(sp['type'], wire.T_PTR), (ENUM, wire.T_PTR), (sp['name'], wire.T_TXT), (sp['name'], wire.T_ANY)])
+                steps.append({'op': 'query', 'qs': [{'name': qname, 'type': qtype, 'sp': 0, 'qu': False}], 'qid': rng.randint(1, 65535), 'src': '10.0.0.23'})
             live.remove(sp)
             busy[sp['sid']] = max(busy[sp['sid']], t + 300)
             steps.append({'op': 'unreg', 'sid': sp['sid']})
@@ -732,8 +762,19 @@ def gen_resp(rng: random.Random, sid: str, focus: str, thorough: bool = False) -
                 # a host's address records have one TTL: services sharing a host name keep the same host TTL (domain)
                 if not any(x['host'] == sp['host'] for x in live if x['sid'] != sp['sid']):
                     sp['host_ttl'] = rng.choice([120, 120, 60])
+            moved_from = None
+            if not same and rng.random() < 0.3 and not any(x['host'] == sp['host'] for x in live if x['sid'] != sp['sid']):
+                # the service moves to another host name (a new ServiceInfo object): the old host is nobody's any more
+                moved_from = sp['host']
+                sp['host'] = 'elm.local.' if sp['host'] != 'elm.local.' else 'oak.local.'
             live[i] = sp
             steps.append({'op': 'upd', 'svc': sp, 'same_object': same})
+            if moved_from is not None:
+                t += rng.choice([0, 600, 1500])
+                steps.append({'op': 'at', 't': t})
+                for qn, qt in [(moved_from, wire.T_A), (moved_from, wire.T_AAAA), (sp['host'], wire.T_A)]:
+                    steps.append({'op': 'query', 'qs': [{'name': qn, 'type': qt, 'sp': rng.randint(0, 2), 'qu': False}], 'qid': rng.randint(1, 65535),
+                                  'src': '10.0.0.9', 'port': rng.choice([40000, 5353])})
             continue
         if r < p_unreg + 0.10 and [s for s in svcs if s['sid'] not in [x['sid'] for x in live] and busy[s['sid']] <= t]:
             gone = [s for s in svcs if s['sid'] not in [x['sid'] for x in live] and busy[s['sid']] <= t]
@@ -847,6 +888,12 @@ def gen_c09(rng: random.Random, sid: str, thorough: bool = False) -> dict:
     for o in others:
         steps += [{'op': 'at', 't': t}, {'op': 'reg', 'svc': o, 'coop': True}]
         t += 600
+    if others and rng.random() < 0.3:
+        # a second description under a name this instance already holds, cooperating_responders (no probing): refused by the
+        # registry, and nothing of it may be announced
+        o2 = dict(others[0], sid=6, port=8081, host='elm.local.', addrs='other4')
+        steps += [{'op': 'at', 't': t + 100}, {'op': 'reg', 'svc': o2, 'coop': True, 'refused': True}]
+        t += 700
     rename = rng.random() < 0.6
     t0 = t + rng.choice([1000, 2500, 9800, 12000])
     expired_case = rng.random() < 0.12
